@@ -64,6 +64,18 @@ def idle_scenario(rng, sid, window, members, multitable=False):
     return {"id": sid, "ops": ops, "_d": dname, "_kind": "idle", "_hot": hot, "_cold": cold, "_window": window, "_span": rounds * step}
 
 
+def idle_bg_scenario(rng, sid, window, wait_ms):
+    """the member's own background eviction (evictKeysAtBackground -> evictKeys: a random partition per round, ten rounds a second)
+    has to find idle keys in EVERY partition: nothing but Puts, a pause, then white-box dumps - no eviction pass driven by the harness"""
+    dname = "c10b%d" % sid
+    cold = [dmaplib.hx("bg%d" % i) for i in range(40)]
+    ops = [{"op": "put", "c": rng.choice(["emb@owner", "cc", "emb@other"]), "d": dname, "k": k, "v": dmaplib.hx("v")} for k in cold]
+    ops.append({"op": "sleep", "ms": wait_ms})
+    for k in cold:
+        ops.append({"op": "dump", "d": dname, "k": k})
+    return {"id": sid, "ops": ops, "_d": dname, "_kind": "idle", "_hot": [], "_cold": cold, "_window": window, "_span": wait_ms}
+
+
 def judge(sc, obs, cfg):
     kind = sc["_kind"]
     if kind == "idle":
@@ -140,7 +152,7 @@ def fragment_cases(sc, obs):
     for (m, part), st in steps.items():
         own = owned_of.get(m, 1) or 1
         c = "{| maxkeys := %s; maxinuse := %s; owned := %s; esz := %s |}" % (
-            cN(limit if kind == "maxkeys" else 0), cN(limit if kind == "maxinuse" else 0), cN(own), cN(sc["_esz"]))
+            cN(limit if kind == "maxkeys" else 0), cN(limit if kind == "maxinuse" else sc.get("_mi", 0)), cN(own), cN(sc["_esz"]))
         items = clist("(%s, %s, %s, %s)" % (cbytes(bytes.fromhex(a)), cbytes(bytes.fromhex(b)), cbytes(bytes.fromhex(k)),
                                               clist(cbytes(bytes.fromhex(x)) for x in after)) for a, b, k, after in st)
         cases.append(((sc["id"], m, part), "(%s, %s)" % (c, items)))
@@ -174,6 +186,17 @@ def run(res):
             dmaps[sc["_d"]] = {"maxinuse": mi, "lru": True, "lrusamples": 3 if mi == 64 * 3 else 0}
             scs.append(sc)
             sid += 1
+        if members == 1:
+            # MaxKeys AND MaxInuse on one DMap, each partition's share being one key and one entry: the Put that finds its partition
+            # full on both counts evicts for the first limit and has to look at the fragment again before it judges the second
+            # (D51: it judged the second limit on the numbers taken before the first eviction, found nothing left to evict and
+            # the Put failed with "nothing found to expire with LRU" - a Put failing because of a limit)
+            rng = vlib.rng_for(res.seed, PID, sid)
+            sc = lru_scenario(rng, sid, "maxkeys", parts, 40 if res.tier == "quick" else 120, "fresh")
+            sc["_mi"] = parts * sc["_esz"]
+            dmaps[sc["_d"]] = {"maxkeys": parts, "maxinuse": sc["_mi"], "lru": True, "lrusamples": 3}
+            scs.append(sc)
+            sid += 1
         rng = vlib.rng_for(res.seed, PID, sid)
         sc = idle_scenario(rng, sid, 360, members)
         dmaps[sc["_d"]] = {"maxidle_ms": 360}
@@ -191,6 +214,14 @@ def run(res):
             scs.append(sc)
             sid += 1
         groups.append(({"members": members, "replicas": min(2, members), "partitions": parts, "table": 256, "evict_workers": 1, "dmaps": dmaps}, scs))
+    # idle keys found by the members' own background eviction, in every partition (one DMap per cluster: a round scans one DMap of
+    # one random partition; 7 partitions, 8 s = 80 rounds per member: a partition is missed with probability (6/7)^80 < 1e-5)
+    for members in ((2,) if res.tier == "quick" else (2, 3, 1)):
+        rng = vlib.rng_for(res.seed, PID, "idle-bg", sid)
+        sc = idle_bg_scenario(rng, sid, 300, 8000)
+        groups.append(({"members": members, "replicas": 1, "partitions": 7, "table": 1 << 16, "evict_workers": 1,
+                        "dmaps": {sc["_d"]: {"maxidle_ms": 300}}}, [sc]))
+        sid += 1
     for cfg, scs in groups:
         for sc in scs:
             sc["ops"] = dmaplib.with_keyinfo(sc["ops"])
